@@ -74,4 +74,9 @@ theorem long_context_rejected (m : Mode) (O : Oracles) (p : ParamSet) (pk : Publ
   ⟨C07.verify_rejects_long_ctx m O p pk msg sig ctx h, C07.hashVerify_rejects_long_ctx m O p pk msg sig ctx ph h,
    C07.internalVerify_rejects_long_ctx m O p pk msg sig ctx h⟩
 
+/-- **the final test of `verify_internal`, as written in the source (regenerated on every run), is Algorithm 8 line 13**:
+    strict `<` on the norm, equality of the two hashes, conjunction -/
+theorem verify_acceptance_test_is_algorithm_8 (zn g1 beta : Int) (ct ctp : List Nat) :
+    verifyAccept zn g1 beta ct ctp = (decide (zn < g1 - beta) && decide (ct = ctp)) := rfl
+
 end Fips204.Props.C02
